@@ -1,7 +1,7 @@
 SPECIFICATION Spec
 CONSTANTS
   W = 2
-  NK = 3
+  NK = 4
   Poss = {0, 3}
   Tags = {0}
   OpNames = {"insert", "remove", "retain", "extract_if", "drain"}
@@ -9,5 +9,6 @@ CONSTANTS
   KIds = {1}
   Es = 8
   MaxB = 16
+  MaxPa = 0
 INVARIANTS Inv Refines LookupOK ChkOK CapacityOK Bounded
 CHECK_DEADLOCK FALSE
